@@ -194,10 +194,14 @@ func (s *Stash) clear(start, end int) {
 			end = len(s.forms) - 1
 		}
 		if start <= end {
+			// The indices count from the most recent form, the same as Nth(),
+			// while the oldest form is first in s.forms.
 			newEnd := len(s.forms) - (end - start) - 1
-			copy(s.forms[:start], s.forms[end:])
+			lo := len(s.forms) - 1 - end
+			hi := len(s.forms) - 1 - start
+			copy(s.forms[lo:], s.forms[hi+1:])
 			// Make sure references are removed so GC can collect them.
-			for i := end + 1; i < len(s.forms); i++ {
+			for i := newEnd; i < len(s.forms); i++ {
 				s.forms[i] = nil
 			}
 			s.forms = s.forms[:newEnd]
